@@ -74,6 +74,9 @@ class DslProp(PropBase):
         elif kind in ("frac_simplify",):
             from y0.dsl import Fraction, Product
             parts = [gen.expr(1) for _ in range(rng.randint(2, 4))]
+            if rng.random() < 0.35:      # near-twins across the bar: a factor and the same factor with one value mark changed must NOT cancel
+                tw = [t for t in (gen.twin(x) for x in parts) if t is not None]
+                parts.extend(tw[:2])
             def pick():  # shared factors, with repeated factors (multiplicity matters when cancelling) in half of the cases
                 if rng.random() < 0.5:
                     return rng.choices(parts, k=rng.randint(1, len(parts) + 1))
@@ -418,6 +421,8 @@ def nested_fractions(gen, rng):
     multiplies across, and the two sides of the quotient can then coincide or share factors."""
     from y0.dsl import Fraction, Product
     pool = [gen.atom() for _ in range(rng.randint(2, 4))]
+    if rng.random() < 0.3:
+        pool.extend(t for t in (gen.twin(x) for x in pool[:2]) if t is not None)
     def prod(k):
         xs = rng.choices(pool, k=k)
         return xs[0] if len(xs) == 1 else Product(tuple(xs))
